@@ -11,6 +11,12 @@ Lean model, exception classes compared; step_delta additionally checked on the
 implementation alone: learning one further event with dict_ndl changes each
 weight by multiplicity*alpha*beta*(target - activation) with the activation
 taken from the real activation().
+Stream `activation_path_*`: the events are given as the PATH of an event file
+(activation() then reads it with io.events_from_file): unknown cues, all three
+policies, n_jobs 1..6, both weight kinds; optionally a third (frequency) column -
+the reader repeats a line that many times, so the model is asked for the
+expanded events (one activation column per repetition, none for frequency 0);
+an empty cue field is read as the cue named "".
 """
 import gen
 from common import rng, frac
@@ -18,40 +24,155 @@ from common import rng, frac
 TIMEOUT = 60
 
 
-def run(rep, pool, driver, tier):
-    r = rng('C12')
-    quick = tier == 'quick'
-    tasks = []
-    for i in range(120 if quick else 1500):
+def model_request(t):
+    """what the model is asked: for a path task the events the file MEANS (a line repeated by its frequency, an
+    empty cue field read as the cue '')"""
+    if not t.get('as_path'):
+        return t
+    evs = []
+    for k, c in enumerate(t['events']):
+        evs += [list(c) if c else ['']] * (1 if t.get('freq') is None else t['freq'][k])
+    return dict({k: v for k, v in t.items() if k not in ('as_path', 'freq', 'file_outcomes')}, events=evs)
+
+
+def problem(t, impl, model):
+    """None when activation() and the model agree on one task"""
+    if 'err' in model or 'err' in impl:
+        if impl.get('err') != model.get('err'):
+            return 'model predicts %s, implementation %s %s' % (model.get('err', 'a result'), impl.get('err', 'returned'), impl.get('msg', ''))
+        return None
+    if t['kind'] == 'matrix':
+        if impl['outcomes'] != model['outcomes']:
+            return 'outcome labels of the activations %r, weights %r' % (impl['outcomes'], model['outcomes'])
+        if impl['dims'] != ['outcomes', 'events']:
+            return 'dims %r' % impl['dims']
+        if [[frac(x) for x in row] for row in impl['by_event']] != [[frac(x) for x in row] for row in model['by_event']]:
+            return 'activations %r, model %r' % (impl['by_event'], model['by_event'])
+        if not impl['weights_unchanged']:
+            return 'weights modified'
+        return None
+    a = {o: [frac(x) for x in v] for o, v in impl['by_outcome']}
+    b = {o: [frac(x) for x in v] for o, v in model['by_outcome']}
+    if a != b:
+        return 'dict activations %r, model %r' % (impl['by_outcome'], model['by_outcome'])
+    return None
+
+
+def shrink(pool, driver, t, budget=30):
+    """greedy: drop events (with their frequency), drop cues, frequency column away, n_jobs 1, while still disagreeing"""
+    steps = 0
+
+    def fails(x):
+        nonlocal steps
+        steps += 1
+        return problem(x, pool.map([x])[0], driver.ask([model_request(x)])[0]) is not None
+
+    def without(x, i):
+        y = dict(x, events=x['events'][:i] + x['events'][i + 1:])
+        for k in ('freq', 'file_outcomes'):
+            if x.get(k) is not None:
+                y[k] = x[k][:i] + x[k][i + 1:]
+        return y
+
+    cur, changed = dict(t), True
+    while changed and steps < budget:
+        changed = False
+        cands = [without(cur, i) for i in range(len(cur['events']))]
+        cands += [dict(cur, events=cur['events'][:i] + [e[:j] + e[j + 1:]] + cur['events'][i + 1:])
+                  for i, e in enumerate(cur['events']) for j in range(len(e)) if len(e) > 1]
+        if cur.get('freq') is not None:
+            cands.append(dict(cur, freq=None))
+        if cur.get('n_jobs', 1) != 1:
+            cands.append(dict(cur, n_jobs=1))
+        if cur.get('layout', 'c') != 'c':
+            cands.append(dict(cur, layout='c'))
+        for c in cands:
+            if steps >= budget:
+                break
+            if fails(c):
+                cur, changed = c, True
+                break
+    return cur, steps
+
+
+def snippet(t):
+    lines = ["import gzip, os, tempfile, numpy as np, xarray as xr", "from fractions import Fraction as F",
+             "from pyndl import activation, ndl"]
+    if t['kind'] == 'matrix':
+        lines.append("w = xr.DataArray(np.array([float(F(v)) for v in %r]).reshape(%d, %d), [('outcomes', %r), ('cues', %r)])  # layout %s"
+                     % (t['vals'], len(t['outcomes']), len(t['cues']), t['outcomes'], t['cues'], t.get('layout', 'c')))
+        kw = "n_jobs=%d, remove_duplicates=%r, ignore_missing_cues=%r" % (
+            t.get('n_jobs', 1), {'error': None, 'dedup': True, 'keep': False}[t['policy']], bool(t.get('ignore_missing')))
+    else:
+        lines.append("w = {o: {c: float(F(v)) for c, v in cells} for o, cells in %r}  # %s" % (t['rows'], 'plain dict' if t.get('strict') else 'as ndl.WeightDict'))
+        kw = "remove_duplicates=%r" % ({'error': None, 'dedup': True, 'keep': False}[t['policy']],)
+    lines.append("cue_lists = %r" % (t['events'],))
+    if t.get('as_path'):
+        lines += ["freq = %r  # third column (None: no such column)" % (t.get('freq'),),
+                  "outs = %r" % (t.get('file_outcomes') or [[] for _ in t['events']],),
+                  "p = os.path.join(tempfile.mkdtemp(), 'events.tab.gz')",
+                  "with gzip.open(p, 'wt', encoding='utf-8') as f:",
+                  "    f.write('cues\\toutcomes\\n')",
+                  "    for k, c in enumerate(cue_lists): f.write('_'.join(c) + '\\t' + '_'.join(outs[k]) + ('\\t%d' % freq[k] if freq else '') + '\\n')",
+                  "print(activation.activation(p, w, %s))" % kw]
+    else:
+        lines.append("print(activation.activation([(c, []) for c in cue_lists], w, %s))" % kw)
+    return '\n'.join(lines)
+
+
+def draw(r, as_path):
+    """one activation task; `as_path`: events handed over as the path of an event file"""
+    if True:
         outs = r.sample(gen.OUTS + ['', 'q'], r.randint(1, 5))
         cues = r.sample(gen.CUES, r.randint(1, 6))
         vals = ['%d/%d' % (r.randint(-16, 16), r.choice([1, 2, 4, 8])) for _ in range(len(outs) * len(cues))]
         n_ev = r.randint(0, 5)
-        unknown = r.random() < 0.3
+        unknown = r.random() < (0.4 if as_path else 0.3)
         evs = []
         for _ in range(n_ev):
             pool_c = cues + (['UNKNOWN', 'ZZ'] if unknown else [])
             k = r.randint(0, 4)
+            if as_path and k == 0 and r.random() < 0.7:
+                k = r.randint(1, 4)      # (an empty cue field is read as the unknown cue '': keep it, but rarer)
             cs = [r.choice(pool_c) for _ in range(k)] if r.random() < 0.4 else r.sample(pool_c, min(k, len(pool_c)))
             evs.append(cs)
         policy = r.choice(['error', 'dedup', 'keep'])
-        if r.random() < 0.55:
-            tasks.append({'op': 'activation', 'kind': 'matrix', 'outcomes': outs, 'cues': cues, 'vals': vals,
-                          'events': evs, 'policy': policy, 'ignore_missing': r.random() < 0.5,
-                          'n_jobs': r.choice([1, 1, 2, 3, 6]), 'as_generator': r.random() < 0.3,
-                          'layout': r.choice(['c', 'c', 'f', 'transposed', 'slice'])})
+        if r.random() < (0.7 if as_path else 0.55):
+            t = {'op': 'activation', 'kind': 'matrix', 'outcomes': outs, 'cues': cues, 'vals': vals,
+                 'events': evs, 'policy': policy, 'ignore_missing': r.random() < 0.5,
+                 'n_jobs': r.choice([1, 1, 2, 3, 6]), 'as_generator': r.random() < 0.3,
+                 'layout': r.choice(['c', 'c', 'f', 'transposed', 'slice'])}
         else:
             rows = []
             for oi, o in enumerate(outs):
                 cells = [[c, vals[oi * len(cues) + ci]] for ci, c in enumerate(cues) if r.random() < 0.8]
                 rows.append([o, cells])
-            tasks.append({'op': 'activation', 'kind': 'dict', 'rows': rows, 'events': evs, 'policy': policy,
-                          'strict': r.random() < 0.5})
+            t = {'op': 'activation', 'kind': 'dict', 'rows': rows, 'events': evs, 'policy': policy,
+                 'strict': r.random() < 0.5}
+        if as_path:
+            t['as_path'] = True
+            if t['kind'] == 'matrix':
+                t['n_jobs'] = r.randint(1, 6)
+            # the outcome column of the file (activation() ignores it), sometimes empty
+            t['file_outcomes'] = [r.sample(gen.OUTS, r.randint(0, 2)) for _ in evs]
+            # a frequency column 0..3 on half of the files (zeros included, also all zero)
+            t['freq'] = [r.randint(0, 3) for _ in evs] if r.random() < 0.5 else None
+        return t
+
+
+def run(rep, pool, driver, tier):
+    r = rng('C12')
+    quick = tier == 'quick'
+    tasks = [draw(r, False) for i in range(120 if quick else 1500)]
+    rp = rng('C12/path')
+    tasks += [draw(rp, True) for i in range(70 if quick else 900)]
     impls = pool.map(tasks)
-    models = driver.ask(tasks)
+    models = driver.ask([model_request(t) for t in tasks])
+    reported = 0
     for t, impl, model in zip(tasks, impls, models):
         has_dup = any(len(set(e)) != len(e) for e in t['events'])
-        rep.case({k: v for k, v in t.items() if k != 'op'}, nontrivial=len(t['events']) >= 1, stream='activation_' + t['kind'])
+        stream = 'activation_' + ('path_' if t.get('as_path') else '') + t['kind']
+        rep.case({k: v for k, v in t.items() if k != 'op'}, nontrivial=len(t['events']) >= 1, stream=stream)
         rep.count('policy:' + t['policy'])
         rep.count('outcome:' + model.get('err', 'Returned'))
         if has_dup:
@@ -60,27 +181,35 @@ def run(rep, pool, driver, tier):
             rep.count('n_jobs:%d' % t['n_jobs'])
             rep.count('layout:' + t['layout'])
             rep.count('ignore_missing:%s' % t['ignore_missing'])
-        prob = None
-        if 'err' in model or 'err' in impl:
-            if impl.get('err') != model.get('err'):
-                prob = 'model predicts %s, implementation %s %s' % (model.get('err', 'a result'), impl.get('err', 'returned'), impl.get('msg', ''))
-        elif t['kind'] == 'matrix':
-            if impl['outcomes'] != model['outcomes']:
-                prob = 'outcome labels of the activations %r, weights %r' % (impl['outcomes'], model['outcomes'])
-            elif impl['dims'] != ['outcomes', 'events']:
-                prob = 'dims %r' % impl['dims']
-            elif [[frac(x) for x in row] for row in impl['by_event']] != [[frac(x) for x in row] for row in model['by_event']]:
-                prob = 'activations %r, model %r' % (impl['by_event'], model['by_event'])
-            elif not impl['weights_unchanged']:
-                prob = 'weights modified'
-        else:
-            a = {o: [frac(x) for x in v] for o, v in impl['by_outcome']}
-            b = {o: [frac(x) for x in v] for o, v in model['by_outcome']}
-            if a != b:
-                prob = 'dict activations %r, model %r' % (impl['by_outcome'], model['by_outcome'])
+        rep.count('events_as:%s' % ('path' if t.get('as_path') else 'generator' if t['kind'] == 'matrix' and t.get('as_generator') else 'list'))
+        if t.get('as_path'):
+            known = set(t['cues']) if t['kind'] == 'matrix' else None
+            rep.count('path/%s/policy=%s/%s/outcome=%s' % (t['kind'], t['policy'], 'freq' if t['freq'] is not None else 'nofreq',
+                                                       model.get('err', 'Returned')))
+            if t['kind'] == 'matrix':
+                rep.count('path/n_jobs:%d' % t['n_jobs'])
+                rep.count('path/ignore_missing:%s/%s' % (t['ignore_missing'], 'unknown cue' if any(
+                    c not in known for e in model_request(t)['events'] for c in e) else 'all cues known'))
+            if t['freq'] is not None:
+                rep.count('path/freq_column:%s' % ('all zero' if not any(t['freq']) else 'with zero' if 0 in t['freq'] else 'no zero'))
+            if any(not e for e in t['events']):
+                rep.count('path/empty_cue_field')
+        prob = problem(t, impl, model)
         if prob:
-            rep.violation({'what': prob, 'input': t, 'observed': impl, 'expected': model,
-                           'theorem_or_stream': 'C12 act_eq_sum / act_missing: activation() vs Lean model (%s path)' % t['kind']})
+            small, steps = t, 0
+            if reported < 3:
+                reported += 1
+                small, steps = shrink(pool, driver, t)
+                impl2, model2 = pool.map([small])[0], driver.ask([model_request(small)])[0]
+                p2 = problem(small, impl2, model2)
+                if p2:
+                    prob, impl, model = p2, impl2, model2
+                else:
+                    small, steps = t, 0
+            rep.violation({'what': prob, 'input': small, 'observed': impl, 'expected': model, 'python': snippet(small),
+                           'shrink_steps': steps, 'shrunk_from_events': len(t['events']),
+                           'theorem_or_stream': 'C12 act_eq_sum / act_missing: activation() vs Lean model (%s path, events given as %s)'
+                                                % (t['kind'], 'event-file path' if t.get('as_path') else 'list/iterator')})
         elif len(t['events']) >= 2 and 'err' not in model:
             rep.sample({'kind': t['kind'], 'policy': t['policy'], 'events': t['events'], 'result': impl.get('by_event', impl.get('by_outcome'))})
     # learner / activation link on the implementation
